@@ -651,7 +651,11 @@ fn shake_1(expression: Expression) -> Expression {
             for expression in expressions {
                 let shaken = shake_1(expression);
                 match shaken {
-                    Expression::Nested(field, expression) => {
+                    // NOTE: A nested `all` is matched across the entries of an array, merging it
+                    // with its neighbours would require all of it to match within one entry.
+                    Expression::Nested(field, expression)
+                        if !matches!(*expression, Expression::Match(Match::All, _)) =>
+                    {
                         let expressions = nested.entry(field).or_insert(vec![]);
                         (*expressions).push(*expression);
                     }
@@ -708,7 +712,10 @@ fn shake_1(expression: Expression) -> Expression {
                     let shaken = shake_1(expression);
 
                     match shaken {
-                        Expression::Nested(field, expression) => {
+                        // NOTE: See the `And` arm, a nested `all` must stay on its own.
+                        Expression::Nested(field, expression)
+                            if !matches!(*expression, Expression::Match(Match::All, _)) =>
+                        {
                             let expressions = nested.entry(field).or_insert(vec![]);
                             (*expressions).push(*expression);
                         }
